@@ -1,6 +1,7 @@
 CONSTANTS
   Vals <- @@Vals@@
   MaxLen = @@MaxLen@@
+  Reps = @@Reps@@
 SPECIFICATION Spec
 INVARIANTS Laws Emit
 CHECK_DEADLOCK FALSE
